@@ -597,6 +597,11 @@ pub fn run(ctx: &mut Ctx, multi: bool) {
     ctx.meta.insert("distinct_nontrivial".into(), serde_json::json!(nontrivial));
     ctx.meta.insert("distribution".into(), serde_json::json!(hist));
     ctx.meta.insert("samples".into(), serde_json::json!(samples));
+    if multi {
+        let (more, loop_hist) = crate::c05::c04_loop_probe(&mut r, if ctx.thorough { 3000 } else { 300 });
+        impl_violations.extend(more);
+        ctx.meta.insert("fee_loop_runs".into(), serde_json::json!(loop_hist));
+    }
     ctx.meta.insert("impl_violations".into(), serde_json::json!(impl_violations));
     ctx.meta.insert(
         "rule".into(),
